@@ -238,6 +238,10 @@ func (c *ShadowStreamClientConn) writeToServerConn(w *ShadowStreamServerConn) (n
 		return n, err
 	}
 
+	if w.ShadowStreamConn.writeCipher == nil { // w's first write has to send the response header
+		return c.writeToGeneric(w)
+	}
+
 	return c.ShadowStreamConn.writeToShadowStreamConn(&w.ShadowStreamConn)
 }
 
